@@ -373,11 +373,60 @@ fn c15_cases_enum(tier: Tier, shard: u64, nshards: u64, f: &mut dyn FnMut(&[u64]
     }
 }
 
+/// every number as a Content-Length value: params = [first n of a block of 512, spelling]
+fn c15_numbers(input: &Input, obs: &mut Obs) -> Result<(), Fail> {
+    let p = input.params();
+    let mut cnt = 0u64;
+    for n in p[0]..p[0] + 512 {
+        let text = match p[1] {
+            0 => format!("Content-Length: {}", n),
+            1 => format!("content-length:{}", n),
+            2 => format!("Content-Length: +{}", n),
+            3 => format!("Content-Length: 0{}", n),
+            _ => format!("Content-Length: -{}", n),
+        };
+        let line = text.into_bytes();
+        // alone, and after an earlier acceptable value (last acceptable occurrence wins)
+        c15_check_lines(&[line.clone()], 0)?;
+        c15_check_lines(&[b"Content-Length: 7".to_vec(), line], 1)?;
+        cnt += 2;
+    }
+    obs.extra_evals = cnt - 1;
+    obs.extra_nontrivial = cnt;
+    if obs.want_render {
+        obs.render = format!("Content-Length values {}..{} in spelling #{}", p[0], p[0] + 511, p[1]);
+    }
+    Ok(())
+}
+
+fn c15_numbers_enum(tier: Tier, shard: u64, nshards: u64, f: &mut dyn FnMut(&[u64]) -> bool) {
+    let mut c = 0u64;
+    let max = if tier == Tier::Quick { 70_144 } else { 1_048_576 };
+    for spelling in 0..5u64 {
+        let mut start = 0u64;
+        let top = if spelling == 0 { max } else { 4096 };
+        while start < top {
+            c += 1;
+            if c % nshards == shard && !f(&[start, spelling]) {
+                return;
+            }
+            start += 512;
+        }
+        for start in [(1u64 << 31) - 256, (1u64 << 32) - 256, (1u64 << 32) - 512, 999_999_744, 9_999_999_744, (1u64 << 63) - 256] {
+            c += 1;
+            if c % nshards == shard && !f(&[start, spelling]) {
+                return;
+            }
+        }
+    }
+}
+
 fn c15_plan(tier: Tier) -> Vec<Job> {
     let q = tier == Tier::Quick;
     vec![
         Job { sub: "blocks", kind: JobKind::Pbt { cases: if q { 1_000_000 } else { 15_000_000 }, max_len: 160 }, smallbuf: false },
         Job { sub: "pairs", kind: JobKind::Enum { f: c15_pairs_enum, bound: "all ordered pairs (thorough: triples) of 35 curated header lines x 3 block terminators" }, smallbuf: false },
+        Job { sub: "numbers", kind: JobKind::Enum { f: c15_numbers_enum, bound: "every Content-Length value 0..70143 (thorough: 0..2^20-1) in the plain spelling, 0..4095 in four other spellings (no space, '+', leading zero, '-'), and blocks around 2^31, 2^32, 10^9, 10^10, 2^63" }, smallbuf: false },
         Job { sub: "cases", kind: JobKind::Enum { f: c15_cases_enum, bound: "7 recognised names x every letter-case pattern (names <= 10 letters: all 2^n; longer: every k-th pattern) x 6 paddings" }, smallbuf: false },
     ]
 }
@@ -385,7 +434,7 @@ fn c15_plan(tier: Tier) -> Vec<Job> {
 pub fn c15() -> PropDef {
     PropDef {
         id: "C15",
-        subs: vec![("blocks", c15_blocks), ("pairs", c15_pairs), ("cases", c15_cases), ("raw", crate::props::raw::c15_raw)],
+        subs: vec![("blocks", c15_blocks), ("pairs", c15_pairs), ("cases", c15_cases), ("raw", crate::props::raw::c15_raw), ("numbers", c15_numbers)],
         plan: c15_plan,
         rule: "case = header block of 0..6 lines (recognised names in letter-case patterns and SP/HTAB/Unicode/CR/LF padding with supported/unsupported/malformed values, other names, 0/1/several colons, invalid UTF-8) plus one raw Accept-Encoding value; oracle = independent statement of the header rules, checked three ways (block vs rules, block vs line-by-line fold, per-line outcome class) + Encoding::try_from vs identity rule; non-trivial = a recognised name with non-canonical case or padding, a duplicate name, or a faulty line",
         assumptions: vec![
@@ -1595,18 +1644,57 @@ fn c14_edit_enum(_tier: Tier, shard: u64, nshards: u64, f: &mut dyn FnMut(&[u64]
     }
 }
 
+/// every body length: params = [first n of a block of 64]
+fn c14_lengths(input: &Input, obs: &mut Obs) -> Result<(), Fail> {
+    let p = input.params();
+    let mut cnt = 0u64;
+    for n in p[0]..p[0] + 64 {
+        let n = n as usize;
+        for (mi, m) in ["PUT", "PATCH", "GET"].iter().enumerate() {
+            for delta in [0i64, -1, 1] {
+                let supplied = (n as i64 + delta).max(0) as usize;
+                let mut slice = format!("{} /a HTTP/1.{}\r\nContent-Length: {}\r\n\r\n", m, mi % 2, n).into_bytes();
+                slice.extend(filler(0, n as u8, supplied));
+                let mut o = Obs::default();
+                c14_check(&slice, &mut o)?;
+                cnt += 1;
+            }
+        }
+    }
+    obs.extra_evals = cnt - 1;
+    obs.extra_nontrivial = cnt;
+    if obs.want_render {
+        obs.render = format!("PUT/PATCH/GET with Content-Length n and n-1, n, n+1 body bytes for every n in {}..{}", p[0], p[0] + 63);
+    }
+    Ok(())
+}
+
+fn c14_lengths_enum(tier: Tier, shard: u64, nshards: u64, f: &mut dyn FnMut(&[u64]) -> bool) {
+    let max = if tier == Tier::Quick { 3200 } else { 12_800 };
+    let mut c = 0u64;
+    let mut start = 0u64;
+    while start < max {
+        c += 1;
+        if c % nshards == shard && !f(&[start]) {
+            return;
+        }
+        start += 64;
+    }
+}
+
 fn c14_plan(tier: Tier) -> Vec<Job> {
     let q = tier == Tier::Quick;
     vec![
         Job { sub: "diff", kind: JobKind::Pbt { cases: if q { 500_000 } else { 8_000_000 }, max_len: 300 }, smallbuf: false },
         Job { sub: "edit", kind: JobKind::Enum { f: c14_edit_enum, bound: "4 canonical slices x every byte position x {delete, replace by each of 12 symbols, insert each of 12 symbols}" }, smallbuf: false },
+        Job { sub: "lengths", kind: JobKind::Enum { f: c14_lengths_enum, bound: "3 methods x every Content-Length n in 0..3199 (thorough: 0..12799) x body of n-1, n, n+1 bytes" }, smallbuf: false },
     ]
 }
 
 pub fn c14() -> PropDef {
     PropDef {
         id: "C14",
-        subs: vec![("diff", c14_diff), ("edit", c14_edit), ("raw", crate::props::raw::c14_raw)],
+        subs: vec![("diff", c14_diff), ("edit", c14_edit), ("raw", crate::props::raw::c14_raw), ("lengths", c14_lengths)],
         plan: c14_plan,
         rule: "case = one byte slice from the request grammar with corruptions, with/without trailing bytes or truncation; oracle = differential between Request::try_from and an HttpConnection fed the slice (payload limit 2^32-1, whole-window reads): forward (accepted => same first request), converse (exactly one request with nothing left => accepted with the same fields, except GET declaring a body), and the max_len rule at len-1/len/len+1; REF referees comparability (line limit); non-trivial = the slice has >=1 byte after its first CRLF beyond the blank line",
         assumptions: vec!["slices whose first request has a line longer than the receive window are outside the comparable set (the statement says 'within the line and payload limits')"],
